@@ -180,7 +180,10 @@ func (f *FibStrategyTree) InsertNextHopEnc(name enc.Name, nexthop uint64, cost u
 	f.fibStrategyRWMutex.Lock()
 	defer f.fibStrategyRWMutex.Unlock()
 	verifMutating(&f.fibStrategyRWMutex, "fib.mut")
+	f.insertNextHopEnc(name, nexthop, cost)
+}
 
+func (f *FibStrategyTree) insertNextHopEnc(name enc.Name, nexthop uint64, cost uint64) {
 	name = name.Clone()
 	entry := f.fillTreeToPrefixEnc(name)
 	if entry.name == nil {
@@ -206,7 +209,10 @@ func (f *FibStrategyTree) ClearNextHopsEnc(name enc.Name) {
 	f.fibStrategyRWMutex.Lock()
 	defer f.fibStrategyRWMutex.Unlock()
 	verifMutating(&f.fibStrategyRWMutex, "fib.mut")
+	f.clearNextHopsEnc(name)
+}
 
+func (f *FibStrategyTree) clearNextHopsEnc(name enc.Name) {
 	if name == nil {
 		return // In some weird case, when RibEntry.updateNexthops() is called, the name becomes nil.
 	}
@@ -216,6 +222,23 @@ func (f *FibStrategyTree) ClearNextHopsEnc(name enc.Name) {
 		delete(f.fibPrefixes, name.Hash())
 		node.pruneIfEmpty()
 	}
+}
+
+// UpdateBatch applies several next-hop changes atomically with respect to lookups.
+func (f *FibStrategyTree) UpdateBatch(fn func(b FibBatch)) {
+	f.fibStrategyRWMutex.Lock()
+	defer f.fibStrategyRWMutex.Unlock()
+	fn(fibTreeBatch{f})
+}
+
+type fibTreeBatch struct{ f *FibStrategyTree }
+
+func (b fibTreeBatch) InsertNextHopEnc(name enc.Name, nexthop uint64, cost uint64) {
+	b.f.insertNextHopEnc(name, nexthop, cost)
+}
+
+func (b fibTreeBatch) ClearNextHopsEnc(name enc.Name) {
+	b.f.clearNextHopsEnc(name)
 }
 
 // RemoveNextHop removes the specified nexthop entry from the specified prefix.
